@@ -68,6 +68,61 @@ fn time_of(ns: i64) -> DateTime<Utc> {
     Utc.timestamp_nanos(ns)
 }
 
+/// serialise with serde_json and deserialise again: (restored value, it differs from the original
+/// or could not be (de)serialised)
+fn round_trip<T>(x: &T) -> (T, bool)
+where
+    T: serde::Serialize + serde::de::DeserializeOwned + PartialEq + Clone,
+{
+    match serde_json::to_string(x)
+        .ok()
+        .and_then(|js| serde_json::from_str::<T>(&js).ok())
+    {
+        Some(back) => {
+            let changed = back != *x;
+            (back, changed)
+        }
+        None => (x.clone(), true),
+    }
+}
+
+/// persist/restore a tear-sheet generator: its PnLReturns alone first, then the whole generator
+fn round_trip_tsg(g: &mut TearSheetGenerator) -> bool {
+    let (pr, c1) = round_trip(&g.pnl_returns);
+    g.pnl_returns = pr;
+    let (back, c2) = round_trip(g);
+    *g = back;
+    c1 || c2
+}
+
+fn persist_json(v: &Value) -> Vec<usize> {
+    v.as_array()
+        .map(|a| a.iter().filter_map(|x| x.as_u64()).map(|x| x as usize).collect())
+        .unwrap_or_default()
+}
+
+fn wrap_persist(persist: &[usize], changed: bool, inner: String) -> String {
+    if persist.is_empty() {
+        inner
+    } else {
+        format!(
+            "(CPersist {} {} {})",
+            list(&persist.iter().map(|k| n(*k as u128)).collect::<Vec<_>>()),
+            b(changed),
+            inner
+        )
+    }
+}
+
+/// persist points for a history of n steps: none / after every step / a random subset
+fn gen_persist(r: &mut Rng, n: usize) -> Vec<usize> {
+    match r.below(4) {
+        0 | 1 => vec![],
+        2 => (0..=n).collect(),
+        _ => (0..=n).filter(|_| r.chance(1, 4)).collect(),
+    }
+}
+
 // ---- observation printers ----------------------------------------------------------------------
 
 fn ds_coq(s: &DataSetSummary) -> String {
@@ -210,8 +265,18 @@ impl Pos {
 }
 
 fn emit_sheet(em: &mut Emitter, stream: &'static str, ps: &[Pos], extra: &[&str]) {
+    emit_sheet_p(em, stream, ps, &[], extra)
+}
+
+/// `persist`: step numbers (0 = before the first position, k = after the k-th) at which the
+/// generator is persisted and restored
+fn emit_sheet_p(em: &mut Emitter, stream: &'static str, ps: &[Pos], persist: &[usize], extra: &[&str]) {
     let mut tags: Vec<String> = extra.iter().map(|s| s.to_string()).collect();
+    let mut rt_changed = false;
     let mut g = TearSheetGenerator::init(time_of(T0));
+    if persist.contains(&0) {
+        rt_changed |= round_trip_tsg(&mut g);
+    }
     let g0 = gen_coq(&g);
     let sh0 = {
         let mut gc = g.clone();
@@ -221,7 +286,7 @@ fn emit_sheet(em: &mut Emitter, stream: &'static str, ps: &[Pos], extra: &[&str]
         }
     };
     let mut steps = vec![];
-    for p in ps {
+    for (pi, p) in ps.iter().enumerate() {
         tags.push(p.class().into());
         let pe = p.exited(InstrumentIndex(0));
         let mut g2 = g.clone();
@@ -235,6 +300,9 @@ fn emit_sheet(em: &mut Emitter, stream: &'static str, ps: &[Pos], extra: &[&str]
                 sheet_tags(&sheet, &mut tags);
                 steps.push(format!("(Some ({}, {}))", sheet_coq(&sheet), gen_coq(&g2)));
                 g = g2;
+                if persist.contains(&(pi + 1)) {
+                    rt_changed |= round_trip_tsg(&mut g);
+                }
             }
             Err(_) => {
                 tags.push("panic".into());
@@ -244,16 +312,26 @@ fn emit_sheet(em: &mut Emitter, stream: &'static str, ps: &[Pos], extra: &[&str]
         }
     }
     tags.push(format!("sheet_len_{}", bucket(ps.len())));
+    if !persist.is_empty() {
+        tags.push("persist_restore".into());
+    }
+    if rt_changed {
+        tags.push("roundtrip_changed".into());
+    }
     em.emit(Case {
         stream,
-        input: json!({"kind": "sheet", "positions": ps.iter().map(|p| p.to_json()).collect::<Vec<_>>()}),
-        coq: format!(
-            "(CSheet {} {} {} {} {})",
-            z(T0 as i128),
-            list(&ps.iter().map(|p| p.coq()).collect::<Vec<_>>()),
-            g0,
-            sh0,
-            list(&steps)
+        input: json!({"kind": "sheet", "positions": ps.iter().map(|p| p.to_json()).collect::<Vec<_>>(), "persist": persist}),
+        coq: wrap_persist(
+            persist,
+            rt_changed,
+            format!(
+                "(CSheet {} {} {} {} {})",
+                z(T0 as i128),
+                list(&ps.iter().map(|p| p.coq()).collect::<Vec<_>>()),
+                g0,
+                sh0,
+                list(&steps)
+            ),
         ),
         nontrivial: !ps.is_empty(),
         tags,
@@ -551,8 +629,10 @@ fn emit_summary(
     picks: &[usize],
     balances: &[(usize, Decimal, Decimal)],
     ops: &[Op],
+    persist: &[usize],
     extra: &[String],
 ) {
+    let mut rt_changed = false;
     let state = build_state(picks, balances);
     let inst_names: Vec<String> = state.instruments.0.keys().map(|k| k.0.to_string()).collect();
     let asset_keys: Vec<ExchangeAsset<AssetNameInternal>> = state.assets.0.keys().cloned().collect();
@@ -583,7 +663,24 @@ fn emit_summary(
         );
         s0 = summary_coq(&generator.generate(Daily));
         let mut panicked = false;
-        for op in ops {
+        // persist/restore every component of the summary generator (the whole generator cannot go
+        // to JSON: its asset map is keyed by a struct)
+        let rt_gen = |g: &mut TradingSummaryGenerator| -> bool {
+            let mut ch = false;
+            for tsg in g.instruments.values_mut() {
+                ch |= round_trip_tsg(tsg);
+            }
+            for a in g.assets.values_mut() {
+                let (back, c) = round_trip(a);
+                *a = back;
+                ch |= c;
+            }
+            ch
+        };
+        for (oi, op) in ops.iter().enumerate() {
+            if persist.contains(&oi) {
+                rt_changed |= rt_gen(&mut generator);
+            }
             let mut g2 = generator.clone();
             let op2 = op.clone();
             let keys2 = asset_keys.clone();
@@ -641,6 +738,9 @@ fn emit_summary(
                 }
             }
         }
+        if !panicked && persist.contains(&ops.len()) {
+            rt_changed |= rt_gen(&mut generator);
+        }
         final_gens = if panicked {
             vec![]
         } else {
@@ -651,7 +751,22 @@ fn emit_summary(
         s0 = summary_coq(&engine.trading_summary_generator(Decimal::ZERO).generate(Daily));
         let mut panicked = false;
         let mut trade_no = 0u64;
-        'ops: for op in ops {
+        let rt_state = |st: &mut State| -> bool {
+            let mut ch = false;
+            for is in st.instruments.0.values_mut() {
+                ch |= round_trip_tsg(&mut is.tear_sheet);
+            }
+            for a in st.assets.0.values_mut() {
+                let (back, c) = round_trip(&a.statistics);
+                a.statistics = back;
+                ch |= c;
+            }
+            ch
+        };
+        'ops: for (oi, op) in ops.iter().enumerate() {
+            if persist.contains(&oi) {
+                rt_changed |= rt_state(&mut engine.state);
+            }
             match op {
                 Op::Trades(i, trs) => {
                     tags.push("op_trades".into());
@@ -759,21 +874,31 @@ fn emit_summary(
     }
 
     let nontrivial = !coq_ops.is_empty();
+    if !persist.is_empty() {
+        tags.push("persist_restore".into());
+    }
+    if rt_changed {
+        tags.push("roundtrip_changed".into());
+    }
     em.emit(Case {
         stream,
         input: json!({"kind": "summary", "mode": mode, "insts": picks,
             "balances": balances.iter().map(|(i, t, f)| json!([i, dec_json(*t), dec_json(*f)])).collect::<Vec<_>>(),
-            "ops": ops.iter().map(|o| o.to_json()).collect::<Vec<_>>()}),
-        coq: format!(
-            "(CSummary {} {} {} {} {} {} {} {})",
-            n(mode as u128),
-            z(T0 as i128),
-            list(&inst_names.iter().map(|k| s(k)).collect::<Vec<_>>()),
-            list(&init_assets),
-            list(&coq_ops),
-            s0,
-            list(&steps),
-            list(&final_gens)
+            "ops": ops.iter().map(|o| o.to_json()).collect::<Vec<_>>(), "persist": persist}),
+        coq: wrap_persist(
+            persist,
+            rt_changed,
+            format!(
+                "(CSummary {} {} {} {} {} {} {} {})",
+                n(mode as u128),
+                z(T0 as i128),
+                list(&inst_names.iter().map(|k| s(k)).collect::<Vec<_>>()),
+                list(&init_assets),
+                list(&coq_ops),
+                s0,
+                list(&steps),
+                list(&final_gens)
+            ),
         ),
         nontrivial,
         tags,
@@ -786,7 +911,7 @@ fn exec_input(em: &mut Emitter, stream: &'static str, inp: &Value) {
     match inp["kind"].as_str().unwrap_or("") {
         "sheet" => {
             let ps: Vec<Pos> = inp["positions"].as_array().unwrap().iter().map(Pos::from_json).collect();
-            emit_sheet(em, stream, &ps, &[]);
+            emit_sheet_p(em, stream, &ps, &persist_json(&inp["persist"]), &[]);
         }
         "win_rate" => emit_win_rate(em, stream, json_dec(&inp["wins"]), json_dec(&inp["total"])),
         "profit_factor" => {
@@ -813,7 +938,16 @@ fn exec_input(em: &mut Emitter, stream: &'static str, inp: &Value) {
                 .map(|x| (x[0].as_u64().unwrap() as usize, json_dec(&x[1]), json_dec(&x[2])))
                 .collect();
             let ops: Vec<Op> = inp["ops"].as_array().unwrap().iter().map(Op::from_json).collect();
-            emit_summary(em, stream, inp["mode"].as_u64().unwrap_or(0), &picks, &balances, &ops, &[]);
+            emit_summary(
+                em,
+                stream,
+                inp["mode"].as_u64().unwrap_or(0),
+                &picks,
+                &balances,
+                &ops,
+                &persist_json(&inp["persist"]),
+                &[],
+            );
         }
         k => panic!("unknown input kind {k}"),
     }
@@ -1001,6 +1135,11 @@ fn table(em: &mut Emitter, r: &mut Rng) {
                 c /= 3;
             }
             emit_sheet(em, "table", &ps, &["pattern"]);
+            if len == 3 {
+                // the same history with a persist/restore step after every prefix
+                let every: Vec<usize> = (0..=ps.len()).collect();
+                emit_sheet_p(em, "table", &ps, &every, &["pattern"]);
+            }
         }
     }
     // WinRate::calculate
@@ -1188,7 +1327,8 @@ fn gen_summary(em: &mut Emitter, r: &mut Rng, stream: &'static str, mode: u64, m
         let at = r.below(ops.len() as u64 + 1) as usize;
         ops.insert(at, bad);
     }
-    emit_summary(em, stream, mode, &picks, &balances, &ops, &tags);
+    let persist = gen_persist(r, ops.len());
+    emit_summary(em, stream, mode, &picks, &balances, &ops, &persist, &tags);
 }
 
 fn main() {
@@ -1217,7 +1357,8 @@ fn main() {
                     _ => ((1, 1, 6), "hist_break_even_heavy"),
                 };
                 let (ps, tt) = gen_history(&mut r, len, w);
-                emit_sheet(&mut em, "random", &ps, &[fl, tt]);
+                let persist = gen_persist(&mut r, ps.len());
+                emit_sheet_p(&mut em, "random", &ps, &persist, &[fl, tt]);
             }
             for _ in 0..n_sum0 {
                 gen_summary(&mut em, &mut r, "random", 0, max_ops, false);
